@@ -54,7 +54,7 @@ def main():
         print(json.dumps(rec))
         return
     demo = None
-    for name in ("demo.sh", "demo_test.rs", "demo_unit_test.rs"):
+    for name in ("demo_unit_test.rs", "demo_test.rs", "demo.sh"):   # the last one present wins: prefer the CLI demonstration
         if os.path.exists(os.path.join(mdir, name)):
             demo = name
     if confirm:
